@@ -8,6 +8,56 @@ package data
 
 //@ import "time"
 
+// ---- the specification's tables (I2P common structures 0.9.67), written from
+// ---- the document, not from the code.  -1 = unknown / not assigned.
+
+//@ spec func SpecSigPubLen(t int) int {
+//@   switch t {
+//@   case 0: return 128
+//@   case 1: return 64
+//@   case 2: return 96
+//@   case 3: return 132
+//@   case 4: return 256
+//@   case 5: return 384
+//@   case 6: return 512
+//@   case 7: return 32
+//@   case 8: return 32
+//@   case 11: return 32
+//@   }
+//@   return -1
+//@ }
+
+//@ spec func SpecSigLen(t int) int {
+//@   switch t {
+//@   case 0: return 40
+//@   case 1: return 64
+//@   case 2: return 96
+//@   case 3: return 132
+//@   case 4: return 256
+//@   case 5: return 384
+//@   case 6: return 512
+//@   case 7: return 64
+//@   case 8: return 64
+//@   case 11: return 64
+//@   }
+//@   return -1
+//@ }
+
+//@ spec func SpecCryptoPubLen(t int) int {
+//@   switch t {
+//@   case 0: return 256
+//@   case 1: return 64
+//@   case 2: return 96
+//@   case 3: return 132
+//@   case 4: return 32
+//@   case 5: return 32
+//@   case 6: return 32
+//@   case 7: return 32
+//@   }
+//@   return -1
+//@ }
+
+
 //@ spec func pow256(n int) uint64 {
 //@   switch n {
 //@   case 1: return 1 << 8
